@@ -31,7 +31,7 @@ ANCHORS = [
 ]
 RULE = (
     "full product: classifier menu {TSF, RISE, STSF, IndividualBOSS, BOSSEnsemble, "
-    "ContractableBOSS, MUSE (1 and 2 columns), ColumnEnsemble (2 columns)} (thorough: a second "
+    "ContractableBOSS, MUSE (1 and 2 columns), ColumnEnsemble (2 columns), IndividualTDE (1 and 2 columns)} (thorough: a second "
     "parameterisation of each) x label set {0,1},{1,2,3},{a,b},{b,a,c} (listed unsorted),"
     "{-1,5,20},{0.5,1.5} x {balanced, 3:1} x panel (6 = 3 value families x {12,16} training "
     "instances, 24 time points - MUSE 16 in the quick tier; thorough 12 = + length 30) x random_state {0,1,2}; plus the forest regressor "
@@ -57,7 +57,7 @@ ASSUMPTIONS = [
     "accuracy itself is not judged (the statement does not promise any)",
     "excluded, not runnable here (third-party drift / missing binaries, unrelated to the "
     "property): ComposableTimeSeriesForestClassifier (abstract under scikit-learn 1.7), "
-    "TemporalDictionaryEnsemble / IndividualTDE / WEASEL (scikit-learn parameter validation), "
+    "TemporalDictionaryEnsemble / WEASEL (scikit-learn parameter validation), "
     "KNN / ElasticEnsemble / ProximityForest / ShapeDTW (Cython distances), shapelet based, "
     "ROCKET (pure-Python numba stub too slow), CIF/DrCIF/Catch22Forest/HIVE-COTE (catch22)",
 ]
